@@ -3120,3 +3120,13 @@ def str_to_tendril(m, a, c):
 @model("util::str::to_escaped_string", "to_escaped_string")
 def to_escaped_string(m, a, c):
     return Opaque("escaped-string")          # Debug formatting for parse-error messages; only ever handed to the sink
+
+
+@model("<VecDeque as Default>::default")
+def vecdeque_default(m, a, c):
+    return VecM()
+
+
+M["<VecDeque as Extend>::extend"] = M["Vec::extend"]
+M["VecDeque::extend"] = M["Vec::extend"]
+M["VecDeque::reserve"] = M["Vec::reserve"]
